@@ -85,18 +85,21 @@ M0_OFFSET = {'PAYLOAD': 6, 'REQUEST_RESPONSE': 6, 'REQUEST_FNF': 6, 'REQUEST_STR
 
 class C04(Prop):
     id = 'C04'
-    lean_modules = ['RSocketModel.Props.C04']
+    lean_modules = ['RSocketModel.Props.C04', 'RSocketModel.Props.C04Transport']
     technique = 'Lean 4 proof (well-founded induction on the buffer, decoder-parametric) + differential correspondence with FrameParser / TransportTCP'
     level_text = ('c04_chunking_independent, c04_any_two_chunkings, c04_frames_exact(_chunked), c04_truncated_tail, c04_message_mode are kernel-checked for every '
                   'per-frame decoder, every frame sequence and every partition into reads; the model is a transcription of FrameParser.receive_data and is run '
-                  'against the real parser (stub decoder on both sides) and against TransportTCP, TransportAioHttpWebsocket and the QUIC transport with the real decoder.')
+                  'against the real parser (stub decoder on both sides) and against TransportTCP, TransportAioHttpWebsocket and the QUIC transport with the real decoder. '
+                  'Transport.lean models the receiver loop over TransportTCP.next_frame_generator read by read (data / end of stream / failing read) and over the queue of a message transport: '
+                  'c04_tcp_reads_then_eof (whatever arrived complete before the end of the stream is dispatched, also from the last read, however read() cut it), c04_tcp_any_two_read_sequences, c04_tcp_frames_exact, '
+                  'c04_tcp_error_after_reads, c04_tcp_open_is_parser, c04_tcp_empty_read_is_eof, c04_msg_queue_exact; compared with a real TransportTCP over a real StreamReader on scripted reads.')
     level_note = ('Trusted: Lean kernel + standard axioms; model fidelity as far as the correspondence reaches; asyncio.StreamReader.read semantics; '
                   'bytearray slicing = List.take/drop.')
     design_ref = '§5 C04'
     rule = ('sequences of correctly delimited frames (valid, undecodable, ignored, zero-length) plus optional truncated/garbage tail, cut into reads by '
             'five chunking styles (single bytes, whole, one cut, cuts inside every prefix, random); byte-stream mode through FrameParser and through '
             'TransportTCP.next_frame_generator with varying read sizes; message mode incl. the empty message, and whole messages through each of the library\'s message transports that can be fed by a fake websocket (aiohttp server and client, asyncwebsockets client, websockets, HTTP/3), frames pulled through AbstractMessagingTransport.next_frame_generator; the QUIC transport (RSocketQuicProtocol + RSocketQuicTransport driven with StreamDataReceived events for the chunks and a final ConnectionTerminated, the listener task scheduled between all / none / all but the last two / random events); bursts of 257..1100 small frames that are all there before the consumer runs once (TCP read, websocket message batch, QUIC events); non-trivial = at least two frames and at least '
-            'one cut strictly inside a frame or its prefix (stream mode), or a message-mode case; distinct = distinct (bytes, chunking)')
+            'one cut strictly inside a frame or its prefix (stream mode), or a message-mode case; distinct = distinct (bytes, chunking); plus the receiver loop over a real TransportTCP and StreamReader scripted read by read (pieces that are there alone or together before the next read, the end of the stream or a failing read arriving alone or together with the last bytes, read sizes 1..65536), the observed read() results replayed on Transport.tcpLoop')
     assumptions = ['the per-frame decoder is a parameter of the theorem; with the stub decoder the harness replaces rsocket.frame_parser.parse_or_ignore']
 
     def cases(self, rng, tier):
@@ -147,6 +150,36 @@ class C04(Prop):
             else:
                 m = rng.choice([b'', b'', b'\xee', b'\xdd\x01', FR.rbytes(rng, 1, 30)])
                 out.append({'kind': 'msg', 'msg': m.hex(), 'real': rng.random() < 0.3})
+        # the receiver loop over a real TransportTCP and a real StreamReader, scripted read by read: data that arrives alone, together
+        # with more data, together with the end of the stream, or followed by a failing read; model: Transport.tcpLoop
+        for i in range(600 if tier == 'quick' else 20000):
+            bodies = []
+            for _ in range(rng.randint(0, 6)):
+                first = rng.choice([b'', b'\xee', b'\xdd', bytes([rng.randint(0, 255)])])
+                bodies.append(first + (FR.rbytes(rng, 0, 200 if rng.random() < 0.1 else 10) if first else b''))
+            tail = rng.choice([b'', b'', b'', b'\x00', b'\x00\x00', b'\x00\x00\x05ab'])
+            data = b''.join(len(b).to_bytes(3, 'big') + b for b in bodies) + tail
+            pts, style = rand_chunking(rng, len(data))
+            pieces = [c for c in cut(data, pts) if c]
+            ending = rng.choice(['eof', 'eof', 'eof-with-last', 'err', 'err-with-last', 'open'])
+            # script: groups of things that are there before the receiver gets to read again
+            groups, cur = [], []
+            for pc in pieces:
+                cur.append(['d', pc.hex()])
+                if rng.random() < 0.7:
+                    groups.append(cur)
+                    cur = []
+            if ending in ('eof-with-last', 'err-with-last'):
+                cur.append([ending[:3]])
+                groups.append(cur)
+            else:
+                if cur:
+                    groups.append(cur)
+                if ending != 'open':
+                    groups.append([[ending]])
+            out.append({'kind': 'tcploop', 'bodies': [b.hex() for b in bodies], 'tail': tail.hex(), 'groups': groups, 'ending': ending,
+                        'read': rng.choice([1, 2, 3, 5, 64, 1024, 1 << 16]), 'style': style,
+                        'exc': rng.choice(['ConnectionResetError', 'TimeoutError', 'OSError', 'BrokenPipeError'])})
         # bursts: hundreds of small frames that are all there before the consumer runs once (one big read / one batch of messages)
         for i in range(15 if tier == 'quick' else 60):
             kind = ['wsmsg', 'tcp', 'quic'][i % 3]
@@ -186,6 +219,8 @@ class C04(Prop):
         from rsocket import frame as F
         lp = loop()
         kind = case['kind']
+        if kind == 'tcploop':
+            return self._tcploop(case, lp)
         if kind == 'stub':
             data = b''.join(len(bytes.fromhex(b)).to_bytes(3, 'big') + bytes.fromhex(b) for b in case['bodies']) + bytes.fromhex(case['tail'])
             chunks = cut(data, case['cuts'])
@@ -421,8 +456,81 @@ class C04(Prop):
         items, ok = lp.run_until_complete(go())
         return {'expected': expected, 'valid_only': valid_only, 'runs': {'read=%d' % case['read']: {'items': items, 'residual': '', 'terminated': ok}}, 'nbytes': len(data)}
 
+    def _tcploop(self, case, lp):
+        import builtins
+        import rsocket.frame_parser as fp
+        from rsocket.transports.tcp import TransportTCP
+        from rsocket.exceptions import RSocketTransportError
+
+        class W:
+            closed = 0
+
+            def close(self):
+                self.closed += 1
+
+        async def go():
+            reader = asyncio.StreamReader()
+            reads = []
+            real_read = reader.read
+
+            async def logged_read(n=-1):
+                try:
+                    b = await real_read(n)
+                except BaseException as e:
+                    reads.append('err')
+                    raise
+                reads.append('d' + (bytes(b).hex() or '-'))
+                return b
+            reader.read = logged_read
+            w = W()
+            t = TransportTCP(reader, w, read_buffer_size=case['read'])
+            items, end, wrapped = [], 'reading', None
+            groups = [list(g) for g in case['groups']]
+            for _ in range(sum(len(bytes.fromhex(x[1])) if x[0] == 'd' else 1 for g in groups for x in g) + len(groups) + 3):
+                if not reader._buffer and not reader._eof and reader._exception is None:
+                    if not groups:
+                        break
+                    for step in groups.pop(0):
+                        if step[0] == 'd':
+                            reader.feed_data(bytes.fromhex(step[1]))
+                        elif step[0] == 'eof':
+                            reader.feed_eof()
+                        else:
+                            reader.set_exception(getattr(builtins, case['exc'])('scripted'))
+                try:
+                    g = await asyncio.wait_for(t.next_frame_generator(), 2)
+                    if g is None:
+                        end = 'closed'
+                        break
+                    n = 0
+                    async for fr in g:
+                        n += 1
+                        if n > LIMIT:
+                            return items, 'nonterminating', None, reads, w.closed, ''
+                        items.append('X' if not isinstance(fr, str) else fr)
+                except RSocketTransportError as e:
+                    end, wrapped = 'failed', True
+                    break
+                except asyncio.TimeoutError:
+                    end = 'stuck'
+                    break
+                except Exception as e:
+                    end, wrapped = 'failed', False
+                    items.append('RAISED:' + type(e).__name__)
+                    break
+            return items, end, wrapped, reads, w.closed, bytes(t._frame_parser._buffer).hex()
+        orig = fp.parse_or_ignore
+        fp.parse_or_ignore = stub
+        try:
+            items, end, wrapped, reads, closed, residual = lp.run_until_complete(go())
+        finally:
+            fp.parse_or_ignore = orig
+        return {'items': items, 'end': end, 'wrapped': wrapped, 'reads': reads, 'writer_closed': closed, 'residual': residual}
+
     # -- model ---------------------------------------------------------------------------
     def model_lines(self, case, obs):
+        if case['kind'] == 'tcploop':
+            return ['tcp ' + ' '.join(obs['reads'])] if obs['reads'] else []
         if case['kind'] == 'stub':
             return ['drain - ' + ' '.join(c or '-' for c in obs['chunks'])]
         if case['kind'] == 'msg' and not case['real']:
@@ -434,6 +542,11 @@ class C04(Prop):
 
     def compare(self, case, obs, answers):
         if not answers:
+            return None
+        if case['kind'] == 'tcploop':
+            impl = '%s | %s' % (' '.join(obs['items']), 'reading ' + (obs['residual'] or '-') if obs['end'] == 'reading' else obs['end'])
+            if impl != answers[0]:
+                return 'receiver loop over TransportTCP, reads %s: impl %s / model %s' % (' '.join(obs['reads'])[:160], impl[:200], answers[0][:200])
             return None
         if case['kind'] in ('real', 'tcp', 'wsmsg', 'quic'):
             if any(a.startswith('OUT-OF-DOMAIN') or a == 'OOD' for a in answers):
@@ -455,6 +568,34 @@ class C04(Prop):
     def oracle(self, case, obs):
         fails = []
         kind = case['kind']
+        if kind == 'tcploop':
+            # independent of the model: the frames the bytes contain, decided from the script alone
+            data = b''.join(len(bytes.fromhex(b)).to_bytes(3, 'big') + bytes.fromhex(b) for b in case['bodies']) + bytes.fromhex(case['tail'])
+            exp, rest = [], data
+            while len(rest) >= 3 and len(rest) >= 3 + int.from_bytes(rest[:3], 'big'):
+                ln = int.from_bytes(rest[:3], 'big')
+                exp += stub_expected(rest[3:3 + ln])
+                rest = rest[3 + ln:]
+            how = 'read size %d, chunking %s, ending %s' % (case['read'], case['style'], case['ending'])
+            if obs['end'] in ('nonterminating', 'stuck'):
+                return [{'signature': 'stream-nonterminating', 'what': 'the receive loop over TransportTCP did not come back (%s)' % how}]
+            if case['ending'].startswith('eof'):
+                if obs['items'] != exp:
+                    fails.append({'signature': 'chunked-stream-frames-differ', 'what': 'TransportTCP, %s: frames dispatched before the end of the stream %s, the bytes contain %s' % (how, obs['items'][:6], exp[:6])})
+                elif obs['end'] != 'closed' or not obs['writer_closed']:
+                    fails.append({'signature': 'eof-not-noticed', 'what': 'TransportTCP, %s: the end of the stream left the loop %s (writer closed %d times)' % (how, obs['end'], obs['writer_closed'])})
+            elif case['ending'] == 'open':
+                if obs['items'] != exp:
+                    fails.append({'signature': 'chunked-stream-frames-differ', 'what': 'TransportTCP, %s: frames dispatched %s, the bytes contain %s' % (how, obs['items'][:6], exp[:6])})
+                elif obs['residual'] != rest.hex():
+                    fails.append({'signature': 'residual-buffer-wrong', 'what': 'residual buffer %s, expected %s' % (obs['residual'], rest.hex())})
+            else:
+                # a failing read: what was dispatched is a prefix of what the bytes contain (asyncio drops what it had buffered), reported as a transport error
+                if obs['items'] != exp[:len(obs['items'])]:
+                    fails.append({'signature': 'chunked-stream-frames-differ', 'what': 'TransportTCP, %s: frames dispatched before the failing read %s are not a prefix of %s' % (how, obs['items'][:6], exp[:6])})
+                elif obs['end'] != 'failed' or not obs['wrapped']:
+                    fails.append({'signature': 'read-error-not-a-transport-error', 'what': 'TransportTCP, %s: a read raising %s left the loop %s (RSocketTransportError: %s)' % (how, case['exc'], obs['end'], obs['wrapped'])})
+            return fails
         if kind == 'stub':
             if not obs['terminated']:
                 return [{'signature': 'stream-nonterminating', 'what': 'receive_data did not terminate on a byte-stream read'}]
@@ -506,6 +647,8 @@ class C04(Prop):
 
     def nontrivial(self, case, obs):
         k = case['kind']
+        if k == 'tcploop':
+            return json.dumps([case['bodies'], case['tail'], case['groups'], case['read']]) if len(case['bodies']) >= 2 and len(obs['reads']) >= 3 else None
         if k == 'stub':
             if len(case['bodies']) >= 2 and case['cuts']:
                 return json.dumps([case['bodies'], case['tail'], case['cuts']])
@@ -518,6 +661,11 @@ class C04(Prop):
 
     def stats(self, case, obs):
         yield 'kind=' + case['kind']
+        if case['kind'] == 'tcploop':
+            yield 'tcploop-ending=' + case['ending']
+            yield 'tcploop-end=' + obs['end']
+            yield 'tcploop-read=%d' % case['read']
+            return
         if case['kind'] == 'wsmsg':
             yield 'message-transport=' + case.get('which', 'aiohttp-server')
         if case['kind'] == 'stub':
@@ -539,6 +687,12 @@ class C04(Prop):
                 yield 'read=%d' % case['read']
 
     def shrink_candidates(self, case):
+        if case['kind'] == 'tcploop':
+            for i in range(len(case['groups']) - 1):
+                yield dict(case, groups=case['groups'][:i] + [case['groups'][i] + case['groups'][i + 1]] + case['groups'][i + 2:])
+            if case['read'] != 1 << 16:
+                yield dict(case, read=1 << 16)
+            return
         if case['kind'] == 'stub':
             for i in range(len(case['bodies'])):
                 yield dict(case, bodies=case['bodies'][:i] + case['bodies'][i + 1:])
